@@ -225,7 +225,9 @@ Inductive titem :=
 | TTsNanos                        (* {{ __timestamp__ | unixEpochNanos }} *)
 | TUpper (name : bytes)           (* {{ .name | ToUpper }}  (ASCII) *)
 | TLower (name : bytes)
-| TFail.                          (* a call that always fails at execution time *)
+| TFail                           (* a call that always fails at execution time *)
+| TGuard (name okval out : bytes). (* a call on label [name] that yields [out] when the label reads [okval] and fails otherwise
+                                     (e.g. unixToTime on a numeric / non-numeric value); [out] is library behaviour, supplied with the case *)
 Definition tmpl := list titem.
 
 Definition upper_b (b : byte) : byte := if (97 <=? bz b) && (bz b <=? 122) then byte_of_Z' (bz b - 32) else b.
@@ -245,6 +247,7 @@ Fixpoint expand (t : tmpl) (ts : Z) (line : bytes) (ls : lmap) : option bytes :=
       | TUpper n => Some (map upper_b (lget_or_empty ls n) ++ tail)
       | TLower n => Some (map lower (lget_or_empty ls n) ++ tail)
       | TFail => None
+      | TGuard n okv out => if bytes_eqb (lget_or_empty ls n) okv then Some (out ++ tail) else None
       end
     end
   end.
@@ -440,8 +443,13 @@ Definition process_label_format (renames : list (bytes * bytes)) (tmpls : list (
                                | None => set_error m E_tmpl
                                end) tmpls ls1).
 
-(** DropLabels.dropPair / KeepLabels.keepPair: named, or having matchers that all match *)
+(** DropLabels.dropPair / KeepLabels.keepPair (since the fix of D25): every list item selects on its own -- a bare
+    name always, a matcher when the value matches *)
 Definition pair_selected (names : list bytes) (ms : list (bytes * strm)) (k v : bytes) : bool :=
+  existsb (bytes_eqb k) names || existsb (fun km => bytes_eqb (fst km) k && str_match true (snd km) v) ms.
+
+(** before the fix of D25: named or having matchers, and ALL matchers listed for the label must match *)
+Definition pair_selected_prefix (names : list bytes) (ms : list (bytes * strm)) (k v : bytes) : bool :=
   let mine := filter (fun km => bytes_eqb (fst km) k) ms in
   let named := existsb (bytes_eqb k) names in
   match named, mine with
